@@ -721,3 +721,24 @@ Definition al_of_script (s : sub_script) : alookup :=
   end.
 Definition serve_wire (cf : config) (q : query) (down : option (msg * N)) (s : sub_script) (cut : option N) : result :=
   serve cur cf q down false (al_of_script s) cut.
+
+(* ------------------------------------------------------------------ *)
+(* The secondary query: what DNS64 asks the Queryer (session 4).
+   synthesise:  aReq.SetQuestion(w.req.Question[0].Name, dns.TypeA);
+                aReq.RecursionDesired = true; aReq.CheckingDisabled = w.req.CheckingDisabled
+                — the client's name as the client spelled it (w.req is the
+                materialised request, not the lower-cased w.qname);
+   handlePTR:   sub.SetQuestion(inAddrArpa(v4), dns.TypePTR); sub.RecursionDesired = true
+                — the very name the CNAME of the reply points at.
+   miekg's SetQuestion makes one question of class IN and sets RD.  The
+   Queryer is asked at most once per request ([x_aq]). *)
+Record subq := mk_subq { sq_name : list N; sq_type : N; sq_class : N; sq_rd : bool; sq_cd : bool }.
+Definition a_subq (q : query) : subq := mk_subq (q_name q) type_a class_in true (q_cd q).
+Definition ptr_subq (v4 : list N) : subq := mk_subq (in_addr_arpa v4) type_ptr class_in true false.
+Definition sub_query (v : variant) (cf : config) (q : query) (down : option (msg * N)) (work : bool) (al : alookup) (cut : option N) : option subq :=
+  if x_aq (serve v cf q down work al cut) then
+    match gate v (compile cf) q with
+    | GPtr v4 => Some (ptr_subq v4)
+    | _ => Some (a_subq q)
+    end
+  else None.
